@@ -21,7 +21,7 @@ claimed = {
  "C03": dict(text="Twin containers holding the same table registered in two orders (orders enumerated, request symbolic) must give every request the same outcome; additionally no eligible "
              "route with a literal where the winner has a variable may exist. Decided per table by the solver over all requests in the bound.", design="5 (C03)"),
  "C04": dict(text="For the invoked route and every matching canonical request path in the bound, each bound value is proved equal to the oracle's view of the URL segment (minus affixes and "
-             "custom verb), the tail wildcard to the joined remainder, and the key set to the declared variables; thorough adds the substitute-back round trip at a smaller capacity.", design="5 (C04)"),
+             "custom verb), the tail wildcard to the joined remainder, and the key set to the declared variables; thorough adds the substitute-back round trip at a smaller capacity; the Curly-only tables are also run after Container.Router was called again (other router in between).", design="5 (C04)"),
  "C14": dict(text="Product harness: the same container serves p and p+\"/\" for a symbolic p; the solver proves equal status, route, parameter values and Allow header for every p in the bound; a second harness repeats the product on a container with a history (earlier requests for p and p/, then routes added with and without dynamic routes, one removed).", design="5 (C14)"),
  "C17": dict(text="Per symbolic URL: one dispatch per method of the table (plus a foreign one), one OPTIONS dispatch through OPTIONSFilter and a filter-less twin; the solver proves the Allow sets "
              "(405 and OPTIONS) equal the set of methods not answered 404/405, outside the recorded finding classes; one more method is a symbolic string different from every declared one (HEAD, PATCH, anything): it must not be routable.", design="5 (C17)"),
@@ -37,7 +37,7 @@ claimed = {
  "C07": dict(text="Every combination of entry point, container/route encoding switch, outcome kind and provider is executed with a symbolic Accept-Encoding header, payload chunks and pre-set "
              "Content-Encoding; compressors are typestate stubs emitting one token ENC(coding, payload): the solver proves that an encoded response is one complete stream of the coding "
              "named in Content-Encoding whose payload is exactly the bytes written in order, that the coding is the one Accept-Encoding asks for first and that encoding is enabled, and "
-             "that otherwise the body is exactly the raw bytes; also behind an encoding outer container (no double encoding), after an earlier request to a route with its own setting, with a superfluous late status (204/304/500) after the body, with a handler that hijacks the connection, with the container switch flipped after Handle registered the plain handler, and with a client whose writes fail (ledger only). That real gzip/zlib streams decode to their input is assumed (checked natively on the replayed witnesses only).", design="5 (C07)"),
+             "that otherwise the body is exactly the raw bytes; also behind an encoding outer container (no double encoding), after an earlier request to a route with its own setting, with a superfluous late status (204/304/500) after the body, with a handler that never calls Write, with a handler that hijacks the connection, with the container switch flipped after Handle registered the plain handler, and with a client whose writes fail (ledger only). That real gzip/zlib streams decode to their input is assumed (checked natively on the replayed witnesses only).", design="5 (C07)"),
  "C10": dict(text="The panic position is a symbolic choice over every position of a generated filter chain (before/after each filter passes on, handler before/after writing); for recovery on/off, "
              "encoding on/off and both entry points the solver proves: recover handler once with the panic value and the active writer, complete decodable body, nothing escapes (or the same "
              "value propagates when recovery is off), no lock held, compressor ledger clean, and the next request on the same container is served normally; positions include a route selection condition and the container filters around a routing error; the default recover handler is covered for escape, completeness and Content-Length; the request's context may already be done.", design="5 (C10)"),
@@ -63,8 +63,8 @@ claimed = {
              "disallowed Origin are served exactly like on a filter-less twin; a second harness chains two filters with different configurations; the predicate may have accepted the origin in an earlier request and refuse it now.", design="5 (C08)"),
  "C09": dict(text="Symbolic method, requested method and requested header list against configured or computed allowed methods and symbolic allowed headers: the solver proves that a preflight "
              "never reaches a later filter or route, is granted exactly when method and every requested header are allowed, and that actual requests proceed with each header once; an optional "
-             "earlier preflight to the other URL must not change the answer; the requested headers may arrive on two header lines.", design="5 (C09)"),
- "C16": dict(text="go-restful's part of the property, with the standard library codecs trusted: the entity is written by the real Response code and read back by the real Request.ReadEntity / entityReaderWriters.accessorAt / entityJSONAccess / entityXMLAccess code under every combination of entity kind, body coding, compressor provider, writing call, Content-Type spelling (verbatim, with a symbolic parameter suffix, absent or unregistered with a default request content type) and a history of up to two earlier requests (five kinds of broken body, a well-formed one, one of the other entity kind read under another default request content type) that share the pooled decompressors; a gzip body may consist of two members; value and suffix are symbolic. encoding/json, encoding/xml, compress/gzip and compress/zlib are typestate stubs: a serialised value is an opaque token that only the decoder of the same kind turns back into an equal value, a compressed stream a token that only the decompressor of the same coding - reset onto it - opens; json numbers decoded into an untyped field without UseNumber lose precision beyond 2^53. The solver proves: no error and an equal value (64-bit integer exactly, also in the untyped field) for well-formed requests, an error and never a panic for broken ones, a clean decompressor ledger, and no influence of earlier requests. Counterexamples are replayed natively with the real codecs. The equality of the codecs themselves over their whole value domain (unicode strings, floats, nested values) cannot be encoded within reach and is NOT claimed.",
+             "earlier preflight to the other URL must not change the answer; the requested headers may arrive on two header lines; the request's Host may be the host the Origin names.", design="5 (C09)"),
+ "C16": dict(text="go-restful's part of the property, with the standard library codecs trusted: the entity is written by the real Response code and read back by the real Request.ReadEntity / entityReaderWriters.accessorAt / entityJSONAccess / entityXMLAccess code under every combination of entity kind, body coding, compressor provider, writing call, Content-Type spelling (verbatim, with a symbolic parameter suffix, absent or unregistered with a default request content type) and a history of up to two earlier requests (five kinds of broken body, a well-formed one, one of the other entity kind read under another default request content type) that share the pooled decompressors; a gzip body may consist of two members; every request announces its wire length and the reader model knows io.LimitedReader; the writer's Content-Type may also be sent under a default request content type naming the other media type; value and suffix are symbolic. encoding/json, encoding/xml, compress/gzip and compress/zlib are typestate stubs: a serialised value is an opaque token that only the decoder of the same kind turns back into an equal value, a compressed stream a token that only the decompressor of the same coding - reset onto it - opens; json numbers decoded into an untyped field without UseNumber lose precision beyond 2^53. The solver proves: no error and an equal value (64-bit integer exactly, also in the untyped field) for well-formed requests, an error and never a panic for broken ones, a clean decompressor ledger, and no influence of earlier requests. Counterexamples are replayed natively with the real codecs. The equality of the codecs themselves over their whole value domain (unicode strings, floats, nested values) cannot be encoded within reach and is NOT claimed.",
              design="5 (C16)", note="Partial claim: the codecs (encoding/json, encoding/xml, compress/gzip, compress/zlib) are trusted typestate stubs symbolically and the real packages natively; the value domain is one struct type per codec with an int64, a string of <= 3 bytes in a-z and (JSON) an untyped integer field; at most two earlier requests. The statement's quantifier over every value of the codecs' common domain and over unicode strings is outside the claim."),
 }
 not_applicable = {
